@@ -321,6 +321,32 @@ func (t *decideTr) stmts(ss []ast.Stmt, fall string) (string, error) {
 		if t.onlyLogging([]ast.Stmt{x}) {
 			return t.stmts(rest, fall)
 		}
+		// if err := call(args…); err != nil { return … }
+		if as, ok := x.Init.(*ast.AssignStmt); ok && x.Else == nil && len(as.Lhs) == 1 && len(as.Rhs) == 1 {
+			if call, ok := as.Rhs[0].(*ast.CallExpr); ok {
+				callee := t.text(call.Fun)
+				if fn, known := t.spec.calls[callee]; known && t.text(x.Cond) == t.text(as.Lhs[0])+" != nil" {
+					var args []string
+					for _, a := range call.Args {
+						s, err := t.expr(a)
+						if err != nil {
+							return "", err
+						}
+						args = append(args, s)
+					}
+					t.errFrom[t.text(as.Lhs[0])] = callee
+					onErr, err := t.stmts(x.Body.List, "")
+					if err != nil {
+						return "", err
+					}
+					cont, err := t.stmts(rest, fall)
+					if err != nil {
+						return "", err
+					}
+					return fmt.Sprintf("(match %s %s with\n  | none => %s\n  | some _ => %s)", fn, strings.Join(args, " "), onErr, cont), nil
+				}
+			}
+		}
 		var cond string
 		if x.Init != nil {
 			key := t.text(x.Init) + "; " + t.text(x.Cond)
@@ -449,6 +475,24 @@ var decideSpecs = []*decideSpec{
 		},
 		ignore:  []string{"log"},
 		effects: []string{"i.interfaces = append(i.interfaces, iface)"},
+	},
+	{
+		file: "tools/cmd/tag.go", recv: "Tagger", fn: "Tag", lean: "taggerTag",
+		params: "{R V W S : Type} (version : String) (openRepo : String → Option R) (parse : String → Option V) (largest : R → Nat → Option V) (majorOf : V → Nat) (gt : V → V → Bool) (worktreeOf : R → Option W) (statusOf : W → Option S) (isClean : S → Bool) (fullName : V → String) (createTag : R → String → Option Unit)",
+		result: "Except String (V × V)",
+		atoms: map[string]string{
+			"t.Version": "version", "requestedVersion.Major()": "majorOf v_requestedVersion",
+			"requestedVersion.GreaterThan(previousVersion)": "gt v_requestedVersion v_previousVersion",
+			"status.IsClean()": "isClean v_status", "fmt.Sprintf(\"v%s\", requestedVersion.String())": "fullName v_requestedVersion",
+		},
+		calls: map[string]string{"git.PlainOpen": "openRepo", "semver.NewVersion": "parse", "t.largestTagSemver": "largest",
+			"repo.Worktree": "worktreeOf v_repo", "worktree.Status": "statusOf v_worktree", "t.createTag": "createTag"},
+		errs: map[string]string{"git.PlainOpen": "\"open\"", "semver.NewVersion": "\"version\"", "t.largestTagSemver": "\"scan\"",
+			"repo.Worktree": "\"worktree\"", "worktree.Status": "\"status\"", "t.createTag": "\"create\"",
+			"ErrNoNewVersion": "\"ErrNoNewVersion\"", "\"dirty git state\"": "\"dirty\"",
+			"errors.New(err)": "\"wrapped\""},
+		ignore:  []string{"logger"},
+		effects: []string{"fmt.Println(status.String())"},
 	},
 }
 
